@@ -25,6 +25,7 @@ ENTRY_POINTS = [
     'fiddle._src.config.Buildable.__setstate__',
     'fiddle._src.experimental.serialization.dump_json',
     'fiddle._src.history.suspend_tracking',
+    'fiddle._src.history.custom_location',
     'fiddle._src.signatures.get_signature',
     'fiddle._src.signatures.get_type_hints',
     'fiddle._src.tagging.add_tag',
